@@ -60,12 +60,16 @@ ASSUME BlocksMinimal
 \* "reuse": another hasher first digests a proper prefix of the same input slice (its padding must not leak into the input)
 Chunkings(f) == {"one", "bytes", "split1", "splitB-1", "splitB", "splitB+1", "empties", "reuse"}
 \* declared maximum (bytes written) for the variable-length sum, relative to the actual length n
-MaxLens(f, n) == LET B == Block(f) IN {n, n + 1, (n \div B + 1) * B, n + B + 3, 2 * B + 5} \ {m \in 0..(4 * B) : m < n \/ m = 0}
+\* the declared maximum has padding boundaries of its own (it fixes how many blocks the circuit allocates): besides values
+\* relative to n, every maximum at which the allocated block count or the padding shape of the maximum changes
+MaxLens(f, n) == LET B == Block(f) IN ({n, n + 1, (n \div B + 1) * B, n + B + 3, 2 * B + 5}
+                                       \cup (IF IsMD(f) THEN {B - 9, B - 8, B - 4, B - 1, 2 * B - 9, 2 * B - 8, 2 * B - 1} ELSE {B - 2, B - 1, 2 * B - 2, 2 * B - 1}))
+                                      \ {m \in 0..(4 * B) : m < n \/ m = 0}
 
 Fixed == {[kind |-> "fixed", family |-> f, len |-> n, chunking |-> c, blocks |-> Blocks(f, n), pad |-> PadShape(f, n)] :
              f \in Families, n \in 0..300, c \in Chunkings("sha256")}
 FixedCases == {x \in Fixed : x.len \in Lengths(x.family)}
-VarCases == UNION {UNION {{[kind |-> "varlen", family |-> f, len |-> n, max |-> m, minlen |-> ml, blocks |-> Blocks(f, n), pad |-> PadShape(f, n)] :
+VarCases == UNION {UNION {{[kind |-> "varlen", family |-> f, len |-> n, max |-> m, minlen |-> ml, blocks |-> Blocks(f, n), pad |-> PadShape(f, n), maxpad |-> PadShape(f, m)] :
                              m \in MaxLens(f, n), ml \in {0, n}} : n \in Lengths(f)} : f \in {g \in Families : HasVarLen(g)}}
 
 \* field hashers: number of elements, chunking, point at which the state is exported and re-imported
